@@ -2,7 +2,7 @@
 from .. import scriptprop
 
 ID = "C01"
-GEN = ["AvlShapes.lean"]   # function shapes of avl.go regenerated from the source on every run (tie 4B)
+GEN = ["AvlShapes.lean"]   # regenerated from the source on every run (tie 4B): kernels / call shapes / function shapes
 RULE = ("histories of add/remove(present|absent)/contains/len/clear/clone/pre,in,post blocks/walks/string over 3 tree handles per world, "
         "3 comparators (natural, reversed, (x mod 7,x)), value universes {0..7} (heavy duplicates) and {0..40}; plus every history of length <= 5 over {0,1,2} "
         "with add/remove in the thorough tier; non-trivial = at least one add and one remove or clone")
